@@ -98,7 +98,8 @@ Value& OpMODExpression::value(Context& ctx) const
         Integer l = *a2.integer();
         if (l == 0)
           throw RuntimeError(EXC_RT_DIVIDE_BY_ZERO);
-        Value val(Integer(*a1.integer() % l));
+        /* INT64_MIN % -1 traps on most hardware: the remainder by -1 is always 0 */
+        Value val(l == -1 ? Integer(0) : Integer(*a1.integer() % l));
         return LVAL2(val, a1, a2);
       }
       default:
